@@ -228,6 +228,7 @@ type Gen struct {
 	inlineExt map[string]bool
 	impByName map[string]*types.Package
 	lockObls  bool
+	coveredSite map[ssa.Instruction]bool
 	inInit    bool
 	unstableGlobals  map[string]bool
 	unstablePointees map[string]bool
